@@ -177,6 +177,16 @@ pub fn check_triple(t: &Triple, acc: Option<&mut Acc>) -> Vec<String> {
             }
             acc.count("c09:follows_collector_update");
         }
+        // a real delivery from the current collector first (whatever the contract remembers about it must
+        // not outlive the configuration it was derived from)
+        {
+            let who = hook_sender(&t.channel, &newcoll, &t.prefix);
+            sc.w.mint_raw(&who, &s, 100);
+            let _ = sc.w.exec(&who, &sc.q.clone(), &json!({"receive_rewards": {}}).to_string(), &[(s.clone(), 100)]);
+            let st = hook_sender(&t.channel, &sc.staker, &t.prefix);
+            sc.w.mint_raw(&st, &s, 100);
+            let _ = sc.w.exec(&st, &sc.q.clone(), &json!({"receive_unstaked_tokens": {"batch_id": 1}}).to_string(), &[(s.clone(), 100)]);
+        }
         let newch = if t.channel == "channel-31337" { "channel-31338" } else { "channel-31337" };
         let upd = json!({"update_config": {"protocol_chain_config": {"account_address_prefix": cfg.prefix, "ibc_token_denom": sc.s, "ibc_channel_id": newch, "minimum_liquid_stake_amount": "1", "oracle_address": null}}});
         let r = sc.w.exec(&sc.admin.clone(), &sc.q.clone(), &upd.to_string(), &[]);
